@@ -226,6 +226,28 @@ pub fn run(ctx: &mut Ctx) {
     let cases2: Vec<TorCase> = eu.iter().enumerate().map(|(k, s)| TorCase { ds: s.clone(), swaps: fixed_swaps(s.size, k), dual: k % 2 == 0, known: String::new(), kind: String::new() }).collect();
     let n2 = cases2.len();
     ctx.run_par(&SUB_TOR2, cases2, Some(&format!("all {} euclidean 2D symbols (degrees >= 3) with <= {} chambers, one per isomorphism class, each with a fixed renumbering / dual variant", n2, t.pick(8, 9))));
+    // euclidean symbols with large degrees: the square tiling with k = n - 1 extra vertices of degree 2 on every
+    // edge (n odd) under its full symmetry group *442 - a chain of n chambers, faces are 4n-gons. Curvature by
+    // hand: 1/4 + n/2 + (n-1)/2 + 1/4 - n = 0. Degrees cross 2^8 at n = 64 and 2^16 is out of reach.
+    ctx.layer("large-degrees");
+    let big: Vec<TorCase> = [3usize, 9, 31, 63, 65, 67, 129].iter().cloned().chain(if t == Tier::Thorough { vec![255, 257, 513] } else { vec![] })
+        .flat_map(|n| {
+            let mut x = DS::new(2, n);
+            for d in 1..=n {
+                x.op[2][d] = d;
+                x.op[0][d] = if d == 1 { 1 } else if d % 2 == 0 { d + 1 } else { d - 1 };
+                x.op[1][d] = if d == n { n } else if d % 2 == 1 { d + 1 } else { d - 1 };
+            }
+            for d in 1..=n {
+                x.v[0][d] = 4;
+                x.v[1][d] = if d == n { 4 } else { 1 };
+            }
+            debug_assert!(x.ops_are_involutions() && x.v_consistent());
+            (0..2u32).map(move |k| TorCase { ds: x.clone(), swaps: if k == 0 { vec![] } else { vec![(n as u32 * 77, 5), (3, n as u32 * 13 + 1), (k, 9)] }, dual: k == 1, known: String::new(), kind: String::new() }).collect::<Vec<_>>()
+        })
+        .collect();
+    ctx.run_par(&SUB_TOR2, big, None);
+    ctx.layer("exhaustive");
 
     let (pool, pool_text) = symbol_pool(t.pick(4, 5), t.pick(5, 6), t.pick(20, 10));
     let mut cases3: Vec<TorCase> = vec![];
